@@ -117,7 +117,8 @@ def opDEC (args obs : List String) : Option DecOut :=
         -- MessageOptions / HeloOpts / AckMessage merge into the receiver by msgp's design)
         let c18Scope := ["Message", "MessageExt", "Forward", "Packed", "Entry", "EntryExt", "EntryList"].contains ty
         let f18 := if fresh.isEmpty || !c18Scope then [] else
-          if " ".intercalate fresh == go then [] else ["C18 used-receiver-differs-from-fresh"]
+          if " ".intercalate fresh == go then [] else ["C18 used-receiver-differs-from-fresh",
+            "C01 the decoded value differs from what the bytes denote (it depends on what the receiver held before)"]
         let kind := match used with | k :: _ => k | [] => "?"
         let corr :=
           if m == go then none
@@ -439,7 +440,7 @@ def opHIST (op : String) (args obs : List String) : Option DecOut :=
               let corr := match menc with
                 | some mb => if mb == p then none else some s!"model payload={toHex mb}"
                 | none => some "model=err"
-              mk corr ((if rest == "0" && comp == "true" then [] else ["C03 not exactly one complete gzip member"]) ++
+              mk corr ((if rest == "0" && comp == "true" then [] else ["C03 not exactly one complete gzip member", "C01 the compressed message cannot be read back: its stream is not a gzip stream"]) ++
                        (if streamIsEntries es p then [] else ["C03 decompressed stream is not the concatenation of the entries", "C01 compressed message does not carry exactly the given entries"]) ++
                        (if o == s!"O({sizeOpt},-,677a6970)" then [] else ["C03 options are not size + compressed=gzip"])) s!"{es.length}"
             | _, _, _, _ => none
